@@ -11,9 +11,10 @@ CONSTANTS
   Extra <- MCExtra
   QueueCaps <- MCQueueCaps
   Arms <- MCArms
+  Helds <- MCHelds
   SmallCap = 40
   M = 0
   Emit = FALSE
-INVARIANTS NoPanic PeerMaps LayoutSound PeerSame SortedThroughGlobal QueueSound CrossWired ArmAligned
+INVARIANTS NoPanic PeerMaps LayoutSound PeerSame HeldWords SortedThroughGlobal QueueSound CrossWired ArmAligned
 
 CHECK_DEADLOCK FALSE
